@@ -430,3 +430,70 @@ def ep1(facts, rep, rule='EP-1'):
                         'is_empty() tests `%s.%s()`, but clear() does not establish that on every path: after the last record '
                         'a reused record never looks empty and the documented read loop does not terminate' % (f, how))
     rep.floor(rule, 'tested fields', n, 7)
+
+
+# ------------------------------------------------------------------------------------------------ TB-4b (C13)
+def tb4b(facts, rep, rule='TB-4'):
+    from .c13 import const_byte_arg
+    n = 0
+    for b0 in facts.body_list:
+        if not b0.path.startswith(('io::bed::', 'io::gff::', '<io::bed::', '<io::gff::')) or '::tests' in b0.path:
+            continue
+        b = facts.view(b0)
+        news = [bb for bb, t in b.calls() if call_info(t) and call_info(t).get('crate') == 'csv' and
+                call_info(t)['fn'].endswith('ReaderBuilder::new')]
+        if not news:
+            continue
+        n += 1
+        rep.analysed_body(b)
+        got = {}
+        for bb, t in b.calls():
+            info = call_info(t)
+            if info and info.get('crate') == 'csv' and info['fn'].rsplit('::', 1)[-1] in ('delimiter', 'comment') and len(t['args']) >= 2:
+                got[info['fn'].rsplit('::', 1)[-1]] = const_byte_arg(b, t, 1)
+        key = '%s|every-csv-reader-is-configured-alike' % b.path
+        if got.get('delimiter') == 9 and got.get('comment') == ('Some', 35):
+            rep.ok(rule, key, b.loc(news[0]), 'TAB-delimited, `#` comments skipped')
+        else:
+            rep.bad(rule, key, b.loc(news[0]), 'this function builds its own csv reader with delimiter=%r, comment=%r: readers opened '
+                                               'this way do not skip `#` comment lines / split at TAB like Reader::new does'
+                    % (got.get('delimiter'), got.get('comment')))
+    rep.floor(rule, 'functions building a csv reader', n, 2)
+
+
+# ------------------------------------------------------------------------------------------------ CO-1 (C13)
+def co1(facts, rep, rule='CO-1'):
+    rep.rule(rule, 'GFF columns are written from the stored fields: the tuple gff::Writer::write hands to the csv serialiser '
+                   'consists of record.{seqname, source, feature_type, start, end, score, strand, phase} in the order of the '
+                   'reader\'s column tuple, each taken directly from the field (reference or copy), followed by the attribute '
+                   'string. A column produced through a parsing / formatting accessor (score() -> Option<u64>) is lossy: '
+                   '"0.95" or "007" do not survive a round trip')
+    w = facts.method('io::gff::Writer', 'write')
+    key = 'gff::Writer::write|columns-are-the-raw-fields'
+    if w is None:
+        rep.missing(rule, key, 'not found')
+        return
+    rep.analysed_body(w)
+    want = ['seqname', 'source', 'feature_type', 'start', 'end', 'score', 'strand', 'phase']
+    rt = facts.types.get('io::gff::Record') if hasattr(facts, 'types') else None
+    sers = [(bb, t) for bb, t in w.calls() if call_info(t) and call_info(t)['fn'].rsplit('::', 1)[-1] == 'serialize' and
+            call_info(t).get('crate') == 'csv']
+    if len(sers) != 1:
+        rep.missing(rule, key, 'expected one csv serialize call, found %d' % len(sers))
+        return
+    bb, t = sers[0]
+    e = strip(w.expr_operand(t['args'][1], inline_user=True))
+    if e[0] != 'agg' or len(e[3]) != 9:
+        rep.bad(rule, key, w.loc(bb), 'the serialised value is not a 9-column tuple: `%s`' % fmt(e)[:100])
+        return
+    cols = [fmt(strip(x)) for x in e[3][:8]]
+    wrong = []
+    for name, c in zip(want, cols):
+        c0 = re.sub(r'^(Clone>::clone|clone|AsRef<str>>::as_ref|String::as_str|Deref>::deref)\((.*)\)$', r'\2', c)
+        if c0 not in ('record.' + name, 'arg2.' + name):
+            wrong.append((name, c))
+    if wrong:
+        rep.bad(rule, key, w.loc(bb), 'column `%s` is written as `%s`, not from the stored field: the value read back differs from '
+                                      'the value written' % (wrong[0][0], wrong[0][1][:90]))
+    else:
+        rep.ok(rule, key, w.loc(bb), ', '.join(want))
